@@ -1,7 +1,218 @@
 import Mutagen.Driver.Util
+import Mutagen.Driver.Tree
+import Mutagen.Model.Remote
+import Mutagen.Driver.C11
 namespace Mutagen.Driver.C21
+open Mutagen.Driver Mutagen.Driver.Tree Mutagen.Model Mutagen.Model.Remote
 
-/-- Model-side handler for one line of the C21 correspondence stream. -/
-def handle (_line : String) : String := "unimplemented"
+/-!
+Lines (trees, changes, paths in the encoding of `Driver/Tree.lean`; `-` = empty list):
+
+* `k <request paths> <digest count> !` / `k <request paths> <digest count> <paths> <sigs>`
+  → `Stage` through client and server when the underlying endpoint fails /
+  returns the given paths and signatures (`sigs`: one `0|1` validity digit per
+  signature): `local-error` | `none` | `rejected` | `invalid` | `remote-error` |
+  `need <paths> <signature count>`.
+* `t <changes> !` / `t <changes> <results> <problems> <missing 0|1>` → `Transition`
+  (`results`: entries joined by `;`, `problems`: `path!text` joined by `;`):
+  `rejected` | `invalid` | `remote-error` | `done <results> <problems> <missing>`.
+* `n <scan> <scan> …` → a history of scans on one client; a scan is
+  `<ancestor>+!<tryAgain>` (the endpoint fails) or `<ancestor>+<tree>+<p><d>`
+  (snapshot content, preserves-executability and decomposes-unicode flags).
+  Per scan: `<result>/last=<stored snapshot or ->`, result = `ok:<tree>+<pd>` |
+  `remote-error:<tryAgain>` | `invalid`.
+* `v <mode> <A> <alpha> <beta>` → number of alpha and beta changes of `Reconcile`
+  that fail `Change.EnsureValid(true)`: `<n>,<n>`.
+* `m <steps>` → mirrored real roots (one behind a local endpoint, one behind a
+  remote endpoint); steps, comma separated: the root edits of `Driver/C11`
+  (`w=…`, `m=…`, `d=…`, `e`), `s` / `S` (scan / full scan → `scan:<tree>`),
+  `T=<path>=<hex>[x]…` (stage, supply and transition new file contents →
+  `T:need=<paths still to be staged>:<results>:ok:0`), `D=<path>` (transition
+  deleting the path), `X=<path>` (a transition whose expectation about the disk
+  is wrong → `X:problem`). Answers joined by ` | `.
+* `q <poll|scan|transition> <r|c|b>` → one cancellable operation whose
+  response comes first (`r`), whose context is cancelled while the endpoint
+  blocks (`c`) or before the call (`b`), followed by a `Stage` on the same
+  connection: `<ok|remote-error|invalid> <aligned|misaligned>`.
+-/
+
+def parseTextList (s : String) : Option (List String) :=
+  if s == "-" then some [] else (s.splitOn ",").mapM decText
+
+def showTextList (l : List String) : String :=
+  if l.isEmpty then "-" else ",".intercalate (l.map encText)
+
+def parseSigs (s : String) : Option (List Bool) :=
+  if s == "-" then some [] else s.toList.mapM fun c => if c == '1' then some true else if c == '0' then some false else none
+
+def showStage : StageResult → String
+  | .localError => "local-error"
+  | .nothing => "none"
+  | .requestRejected => "rejected"
+  | .invalidResponse => "invalid"
+  | .remoteError => "remote-error"
+  | .need paths sigs => "need " ++ showTextList paths ++ " " ++ toString sigs.length
+
+def parseEntries (s : String) : Option (List (Option Entry)) :=
+  if s == "-" then some [] else (s.splitOn ";").mapM parseOEntry
+
+def showEntries (l : List (Option Entry)) : String :=
+  if l.isEmpty then "-" else ";".intercalate (l.map showOEntry)
+
+def parseProblem (s : String) : Option (Path × String) :=
+  match s.splitOn "!" with
+  | [p, t] => do pure (← parsePath p, ← decText t)
+  | _ => none
+
+def parseProblems (s : String) : Option (List (Path × String)) :=
+  if s == "-" then some [] else (s.splitOn ";").mapM parseProblem
+
+def showProblems (l : List (Path × String)) : String :=
+  if l.isEmpty then "-" else ";".intercalate (l.map fun p => showPath p.1 ++ "!" ++ encText p.2)
+
+def showTransition : TransitionResult → String
+  | .requestRejected => "rejected"
+  | .invalidResponse => "invalid"
+  | .remoteError => "remote-error"
+  | .done rs ps m => "done " ++ showEntries rs ++ " " ++ showProblems ps ++ " " ++ showBool m
+
+/-- A snapshot token `<tree>+<pd>` as opaque bytes. -/
+def tokenBytes (s : String) : Bytes := s.toUTF8.toList
+
+def bytesToken (b : Bytes) : String := (String.fromUTF8? (ByteArray.mk b.toArray)).getD "?"
+
+def tokenTree (b : Bytes) : Option (Option Entry) :=
+  match (bytesToken b).splitOn "+" with
+  | [t, _] => parseOEntry t
+  | _ => none
+
+def snapshotValid (b : Bytes) : Bool :=
+  match tokenTree b with
+  | some t => oensureValid false t
+  | none => false
+
+def snapshotHasContent (b : Bytes) : Bool :=
+  match tokenTree b with
+  | some (some _) => true
+  | _ => false
+
+/-- The ancestor-based baseline: `Snapshot{Content: ancestor, PreservesExecutability: true}`. -/
+def ancestorToken (a : String) : Bytes := tokenBytes (a ++ "+10")
+
+def parseScan (s : String) : Option (Bytes × ScanOutcome) :=
+  match s.splitOn "+" with
+  | [a, "!0"] => do let _ ← parseOEntry a; pure (ancestorToken a, .error false)
+  | [a, "!1"] => do let _ ← parseOEntry a; pure (ancestorToken a, .error true)
+  | [a, t, pd] => do
+    let _ ← parseOEntry a
+    let tree ← parseOEntry t
+    if pd.length != 2 then none
+    else pure (ancestorToken a, .snapshot (tokenBytes (showOEntry tree ++ "+" ++ pd)))
+  | _ => none
+
+def showScanResult : ScanResult → String
+  | .ok b => "ok:" ++ bytesToken b
+  | .remoteError t => "remote-error:" ++ showBool t
+  | .patchFailed => "patch-failed"
+  | .invalidSnapshot => "invalid"
+
+def scans : Client → List (Bytes × ScanOutcome) → List String
+  | _, [] => []
+  | st, (anc, o) :: rest =>
+    let (r, st') := remoteScan Codec.trivial snapshotValid snapshotHasContent st anc o
+    (showScanResult r ++ "/last=" ++ (match st'.last with | some b => bytesToken b | none => "-")) :: scans st' rest
+
+/-- The schedules of the three timings, in an order in which every step is
+enabled when reached. -/
+def schedule : String → Option (List Step)
+  -- the operation finishes by itself, the response arrives, then the completion is sent
+  | "r" => some [.sendRequest, .receiveRequest, .finishOperation, .sendResponse, .receiveResponse,
+      .sendCompletion, .receiveCompletion]
+  -- the caller cancels while the operation blocks: completion first, it cancels the operation
+  | "c" => some [.sendRequest, .receiveRequest, .cancelContext, .sendCompletion, .receiveCompletion,
+      .finishOperation, .sendResponse, .receiveResponse]
+  -- the caller's context is already cancelled: request and completion are sent back to back
+  | "b" => some [.cancelContext, .sendRequest, .sendCompletion, .receiveRequest, .receiveCompletion,
+      .finishOperation, .sendResponse, .receiveResponse]
+  | _ => none
+
+/-- The digests of the files of a tree (the endpoint's reverse lookup map). -/
+def fileDigests : Option Entry → List (List UInt8)
+  | none => []
+  | some e => (e.stagingPaths []).map (·.2)
+
+def parseFileSpecs : List String → Option (List (Path × Entry))
+  | [] => some []
+  | p :: d :: rest => do
+    let path ← parsePath p
+    let (hex, x) := if d.endsWith "x" then ((d.dropEnd 1).toString, true) else (d, false)
+    let dg ← decHex hex
+    let more ← parseFileSpecs rest
+    pure ((path, C11.fileEntry dg x) :: more)
+  | _ => none
+
+def mirrorSteps : Option Entry → List String → Option (List String)
+  | _, [] => some []
+  | t, step :: rest =>
+    match step.splitOn "=" with
+    | ["s"] => (mirrorSteps t rest).map (("scan:" ++ showOEntry t) :: ·)
+    | ["S"] => (mirrorSteps t rest).map (("scan:" ++ showOEntry t) :: ·)
+    | "T" :: specs => do
+      let files ← parseFileSpecs specs
+      if files.isEmpty then none
+      let changes : List Change := files.map fun f => { path := f.1, old := getPath t f.1, new := some f.2 }
+      let deps := transitionDependencies changes
+      let have_ := fileDigests t
+      let need := (deps.filter fun d => !have_.contains d.2).map fun d => pathString d.1
+      let t' := files.foldl (fun acc f => C11.setAt acc f.1 (some f.2)) t
+      let out := "T:need=" ++ showTextList need ++ ":" ++ showEntries (files.map fun f => some f.2) ++ ":ok:0"
+      (mirrorSteps t' rest).map (out :: ·)
+    | ["D", p] => do
+      let path ← parsePath p
+      (mirrorSteps (C11.setAt t path none) rest).map ("D:need=-:~:ok:0" :: ·)
+    | ["X", _] => (mirrorSteps t rest).map ("X:problem" :: ·)
+    | edit => do
+      let t' ← C11.fsEdit t edit
+      mirrorSteps t' rest
+
+def run : List String → Option String
+  | ["m", steps] => do
+    let outs ← mirrorSteps (some C11.dirEntry) (listField steps)
+    pure (" | ".intercalate outs)
+  | ["k", req, nd, "!"] => do
+    pure (showStage (remoteStage (← parseTextList req) (← nd.toNat?) .error))
+  | ["k", req, nd, paths, sigs] => do
+    pure (showStage (remoteStage (← parseTextList req) (← nd.toNat?) (.need (← parseTextList paths) (← parseSigs sigs))))
+  | ["t", cs, "!"] => do
+    pure (showTransition (remoteTransition (← parseChanges cs) .error))
+  | ["t", cs, rs, ps, m] => do
+    let missing ← if m == "1" then some true else if m == "0" then some false else none
+    pure (showTransition (remoteTransition (← parseChanges cs) (.done (← parseEntries rs) (← parseProblems ps) missing)))
+  | "n" :: toks => do
+    let hist ← toks.mapM parseScan
+    pure (" ".intercalate (scans {} hist))
+  | ["v", m, a, al, be] => do
+    let (m, a, al, be) ← parseTriple [m, a, al, be]
+    let p := Reconcile a al be m
+    let bad (cs : List Change) : Nat := (cs.filter fun c => !c.ensureValid true).length
+    pure (toString (bad p.alpha) ++ "," ++ toString (bad p.beta))
+  | ["q", op, timing] => do
+    let sched ← schedule timing
+    let w := Wire.run {} sched
+    let result ←
+      match op, timing with
+      | "poll", "r" => some "ok" | "scan", "r" => some "ok" | "transition", "r" => some "ok"
+      | "poll", _ => some "remote-error" | "scan", _ => some "remote-error"
+      -- an error response carries no results and fails the result-count check
+      | "transition", _ => some (match remoteTransition [{ path := [] }] .error with
+          | .remoteError => "remote-error" | _ => "invalid")
+      | _, _ => none
+    pure (result ++ " " ++ (if w.returned && w.aligned then "aligned" else "misaligned"))
+  | _ => none
+
+def handle (line : String) : String :=
+  match run (fields line) with
+  | some out => out
+  | none => "bad-op"
 
 end Mutagen.Driver.C21
